@@ -1,3 +1,6 @@
+#[cfg(lbfs_torrent_bootstrap_verif)]
+use crate::verif_shim::sync::{Arc, Mutex, MutexGuard, thread::{self, JoinHandle}};
+#[cfg(not(lbfs_torrent_bootstrap_verif))]
 use std::{sync::{Arc, Mutex, MutexGuard}, thread::{self, JoinHandle}};
 
 use crate::orchestrator::OrchestrationPiece;
@@ -24,6 +27,9 @@ pub fn run(items: Vec<OrchestrationPiece>, solver: PieceSolver, thread_count: us
     }
 
     balance(&mut (entries.iter_mut().collect::<Vec<_>>()));
+
+    #[cfg(lbfs_torrent_bootstrap_verif)]
+    crate::verif_shim::trace::balanced(&entries.iter().map(|queue| queue.iter().map(|piece| (piece.files[0].metadata.id, piece.files[0].read_start_position, piece.files.len())).collect()).collect::<Vec<_>>());
 
     // Setup state and start
     let locks: Vec<_> = entries
@@ -111,6 +117,9 @@ fn run_internal(mut solver: PieceSolver, thread_id: usize, local: Arc<Mutex<Vec<
 
                 // Balance the work across all the active threads
                 balance(&mut thread_guards[0..state.active_threads]);
+
+                #[cfg(lbfs_torrent_bootstrap_verif)]
+                crate::verif_shim::trace::balanced(&thread_guards.iter().map(|queue| queue.iter().map(|piece| (piece.files[0].metadata.id, piece.files[0].read_start_position, piece.files.len())).collect()).collect::<Vec<_>>());
 
                 // Remove any threads off the tail from processing if they have no work.
                 let mut deactivated_threads = 0;
